@@ -79,6 +79,11 @@ static void enumerateAll(const std::function<void(const Spec &)> &f) {
       for (int md = 0; md < 4; ++md)
         for (int m = 0; m < 3; ++m) { Spec s = c; s.aux = 1; s.aux2 = tu + 256 * (md + 4 * m); f(s); }
     for (size_t r = 0; r < nRegionSets; ++r) { Spec s = c; s.aux = 2; s.aux2 = (int)r; f(s); }
+    // histories on one Circuit object: expansion, then a change of the fixed cells / rows, then another expansion
+    for (int first = 0; first < 3; ++first)
+      for (int change = 0; change < 6; ++change)
+        for (int second = 0; second < 4; ++second)
+          for (int m = 0; m < 2; ++m) { Spec s = c; s.aux = 3; s.aux2 = first + 3 * (change + 6 * (second + 4 * m)); f(s); }
   }
 }
 
@@ -195,6 +200,55 @@ static vf::Verdicts eval(const Spec &s, vf::Ctx &ctx) {
     if (changed) ctx.nontrivial(hashSpec(s));
     return out;
   }
+  if (s.aux == 3) {
+    // differential oracle: the object that went through the history must end exactly like a fresh object that is given the
+    // intermediate state and only performs the last operation
+    int first = s.aux2 % 3, change = (s.aux2 / 3) % 6, second = (s.aux2 / 18) % 4;
+    double margin = MARGINS[(s.aux2 / 72) % 2];
+    auto doFirst = [&](Circuit &cc) {
+      if (first == 0) cc.expandCellsToDensity(0.3, margin, 1.0);
+      else if (first == 1) cc.expandCellsByFactor(std::vector<float>(n, 1.25f), 0.5, margin);
+      else cc.computeRows();
+    };
+    // a fixed obstruction is appended so that every circuit has one to play with
+    Spec s2 = s;
+    CellSpec blk; blk.w = 4; blk.h = 2; blk.x = 40; blk.y = 0; blk.fixed = true; blk.obstruction = true;
+    s2.cells.push_back(blk);
+    Circuit a = build(s2);
+    int nn = a.nbCells(), fc = nn - 1;
+    auto doChange = [&](Circuit &cc) {
+      std::vector<int> x = cc.cellX(), y = cc.cellY();
+      switch (change) {
+        case 0: x[fc] = 2; cc.setCellX(x); break;                                  // the obstruction moves onto the rows
+        case 1: y[fc] = 2; x[fc] = 1; cc.setCellY(y); cc.setCellX(x); break;
+        case 2: { PlacementSolution sol = cc.solution(); sol[fc] = CellPlacement(3, 0, CellOrientation::N); cc.setSolution(sol); break; }
+        case 3: { auto fl = cc.cellIsObstruction(); fl[fc] = false; cc.setCellIsObstruction(fl); x[fc] = 2; cc.setCellX(x); break; }
+        case 4: { auto w = cc.cellWidth(); w[fc] = 9; cc.setCellWidth(w); x[fc] = 0; cc.setCellX(x); break; }
+        default: { std::vector<Row> rows(cc.rows()); rows.pop_back(); cc.setRows(rows); break; }
+      }
+    };
+    std::vector<float> fac(nn, 2.0f);
+    auto doSecond = [&](Circuit &cc) {
+      if (second == 0) cc.expandCellsToDensity(0.8, margin, 1.0);
+      else if (second == 1) cc.expandCellsToDensity(0.99, margin, 0.5);
+      else if (second == 2) cc.expandCellsByFactor(fac, 0.8, margin);
+      else cc.expandCellsByFactor(fac, 1.0, margin);
+    };
+    n = nn;
+    CallResult r1 = guarded([&] { doFirst(a); doChange(a); });
+    if (r1.threw) { fail("history-throws", r1.what); return out; }
+    // fresh object with the same public state
+    Circuit b(nn);
+    b.setCellWidth(a.cellWidth()); b.setCellHeight(a.cellHeight()); b.setCellX(a.cellX()); b.setCellY(a.cellY());
+    b.setCellIsFixed(a.cellIsFixed()); b.setCellIsObstruction(a.cellIsObstruction()); b.setCellOrientation(a.cellOrientation());
+    b.setCellRowPolarity(a.cellRowPolarity()); b.setRows(a.rows());
+    CallResult ra = guarded([&] { doSecond(a); }), rb = guarded([&] { doSecond(b); });
+    if (ra.threw != rb.threw) fail("history-changes-outcome", ra.threw ? ra.what : rb.what);
+    if (a.cellWidth() != b.cellWidth())
+      fail("expansion-depends-on-history", "widths after history " + vf::joinInts(a.cellWidth()) + " vs fresh object " + vf::joinInts(b.cellWidth()));
+    if (a.cellWidth() != before.w || true) ctx.nontrivial(hashSpec(s));
+    return out;
+  }
   // computeCellExpansion
   auto sets = regionSets();
   const auto &regs = sets[s.aux2 % sets.size()];
@@ -241,7 +295,7 @@ int main(int argc, char **argv) {
       "16 circuits (2 row sets incl. split rows x 8 cell sets: mixed heights, zero-width / zero-height cells, fixed obstruction in a row, straddling obstruction, fixed "
       "non-obstruction, dense, movable macro) x expandCellsToDensity over targets {0.3,0.5,0.8,0.99} x margins {0,0.5,1} x caps {0.1,0.5,1}; x expandCellsByFactor over every factor "
       "vector in {1,1.25,2,3.5}^n x max densities {0.1,0.5,0.8,1} x margins; x computeCellExpansion over every set of <= 2 (some/all 3) overlapping regions from a 6-rectangle menu "
-      "with congestion {0.5,1,1.1,2} and three (fixedPenalty, penaltyFactor) pairs; oracle: snapshot comparison (only widths of movable cells may change), no narrowing, "
+      "with congestion {0.5,1,1.1,2} and three (fixedPenalty, penaltyFactor) pairs; x histories on one Circuit object (an expansion or a computeRows query, then one of six changes of a fixed obstruction / the rows through the public setters, then one of four expansions) compared with a fresh object that only performs the last call; oracle: snapshot comparison (only widths of movable cells may change), no narrowing, "
       "area <= target x available (oracle's own rows-minus-all-obstructions-minus-margin area), target reached within one cell height when the cap is not hit, max-over-"
       "intersecting-regions formula; non-trivial = a width changed / a factor differs from 1";
   c.bounds = "as listed";
